@@ -24,18 +24,25 @@ impl RangeSpec {
     pub fn bounds(&self, steer: &[u64]) -> (Bound<u64>, Bound<u64>) {
         let ep = |mode: u8, sel: u16, delta: u8, abs: u64| -> u64 {
             if mode == 0 && !steer.is_empty() {
-                let b = steer[super::pick(sel, steer.len())];
-                match delta % 3 {
+                let i = super::pick(sel, steer.len());
+                let b = steer[i];
+                match delta % 7 {
                     0 => b.saturating_sub(1),
                     1 => b,
-                    _ => b.saturating_add(1),
+                    2 => b.saturating_add(1),
+                    3 => b.saturating_add(2),
+                    4 => b.saturating_sub(2),
+                    // somewhere between this steering point and the next one (the inside of a run or of a gap)
+                    5 => b + steer.get(i + 1).map_or(3, |n| n.saturating_sub(b) / 2),
+                    _ => b.saturating_add(7),
                 }
             } else {
                 abs
             }
         };
         let lo = ep(self.lo_mode, self.lo_sel, self.lo_delta, self.lo_abs);
-        let hi = ep(self.hi_mode, self.hi_sel, self.hi_delta, self.hi_abs);
+        // mode 2: the upper endpoint sits 0..6 ids above the lower one (pin-point ranges)
+        let hi = if self.hi_mode == 2 { lo.saturating_add(u64::from(self.hi_delta % 7)) } else { ep(self.hi_mode, self.hi_sel, self.hi_delta, self.hi_abs) };
         let mk = |k: u8, v: u64| match k % 3 {
             0 => Bound::Unbounded,
             1 => Bound::Included(v),
@@ -65,7 +72,7 @@ fn abs() -> impl Strategy<Value = u64> {
 }
 
 pub fn range() -> impl Strategy<Value = RangeSpec> {
-    (0u8..3, 0u8..3, (prop_oneof![3 => Just(0u8), 1 => Just(1u8)], any::<u16>(), 0u8..3, abs()), (prop_oneof![3 => Just(0u8), 1 => Just(1u8)], any::<u16>(), 0u8..3, abs())).prop_map(
+    (0u8..3, 0u8..3, (prop_oneof![3 => Just(0u8), 1 => Just(1u8)], any::<u16>(), prop_oneof![3 => 0u8..3, 1 => 3u8..7], abs()), (prop_oneof![3 => Just(0u8), 1 => Just(1u8), 1 => Just(2u8)], any::<u16>(), prop_oneof![3 => 0u8..3, 1 => 3u8..7], abs())).prop_map(
         |(lo_kind, hi_kind, (lo_mode, lo_sel, lo_delta, lo_abs), (hi_mode, hi_sel, hi_delta, hi_abs))| RangeSpec {
             lo_kind,
             hi_kind,
